@@ -161,7 +161,7 @@ def gen(rng, idx, tier):
             opts["cffVersion"] = 2
         if rng.random() < 0.4:
             case["lib_filters"] = rng.sample(LIB_FILTERS, rng.randint(1, 3))
-        if rng.random() < 0.06:
+        if rng.random() < 0.12:
             # dedicated stratum of the listed DottedCircle finding: marks present + the lib filter
             gl = case["ufo"]["glyphs"]
             gl[-1]["anchors"] = [{"name": "_top", "x": 10, "y": 20}]
@@ -395,6 +395,8 @@ def _run(case, bump, counters, tmp):
         bump("static_runs")
         if case.get("layer_stratum"):
             bump("layer_compile_" + case["layer_stratum"])
+        if case.get("own_dotted_circle"):
+            bump("dotted_circle_glyph_in_source")
     if doc is not None and not fonts:
         seen = []
         for s in doc.sources:
